@@ -14,4 +14,18 @@ CLAIMS = {
           'preprocessor configurations and cross-checks against llvm-nm data/bss symbols of the compiled objects.',
  },
 }
+CLAIMS['C18'] = {
+  'level': 'proof',
+  'technique': 'static analysis: decision-table extraction from the AST of each screening block, position/order/oracle-coverage/inert-exit obligations (rule R2), sibling agreement (R9)',
+  'design_ref': 'DESIGN.md 4 R2, 5 C18',
+  'text': 'For the 36 screening routines the region from entry to the error return is extracted as (guard -> info code) rows with aliases '
+          'substituted and parameters identified by position. Discharged for every row: the guard mentions the reported argument; codes '
+          'are ordered along else-if chains; every documented precondition of the oracle table (squareness, negative dimension, Stype/Dtype/'
+          'Mtype tags with the routine\'s own precision, lda >= max(0,n), enum ranges, lwork < -1, equed letter, non-positive scale factor, '
+          'B/X column mismatch, flag letters) is implied by a disjunct that yields exactly -(position); no allocation, allocating call, or '
+          'store/call writing a protected argument happens before the error return. This decides the property for every single-argument '
+          'corruption listed in the oracle, for all inputs.',
+  'note': 'Trusted: the oracle table in slucheck/props/c18.py (transcribed from the routine headers), clang parser, no-alias contract. '
+          'Not decided: preconditions the headers do not state (e.g. consistency of perm_c contents).',
+}
 NOT_APPLICABLE = {}
